@@ -29,6 +29,7 @@
 #include <sys/mman.h>
 #include <sys/stat.h>
 #include <sys/wait.h>
+#include <sys/prctl.h>
 
 #define NW 3
 #define NN 4
@@ -464,6 +465,8 @@ static void spawn (struct child *c) {
 	pid_t p = fork ();
 	if (p < 0) { perror ("fork"); exit (2); }
 	if (p == 0) {
+		prctl (PR_SET_PDEATHSIG, SIGKILL);     /* no orphans when the server is killed (watchdog) */
+		if (getppid () == 1) _exit (0);
 		close (a[1]); close (b[0]);
 		for (int i = 0; i < NW; ++i) if (W[i].pid > 0 && &W[i] != c) { close (W[i].cmd); close (W[i].resp); }
 		if (OBS.pid > 0 && &OBS != c) { close (OBS.cmd); close (OBS.resp); }
@@ -506,7 +509,7 @@ static int recv_line (struct child *c, char *buf, size_t n, int timeout_ms) {
 	return (int) i;
 }
 
-#define OP_TIMEOUT 20000
+#define OP_TIMEOUT 5000
 
 /* collect trace tokens until the result (R), a gate request (G), death or timeout.
  * returns 'R', 'G', 'D' (died), 'T' (timeout); result text in res */
@@ -541,6 +544,8 @@ static int blocked_in_futex (pid_t p) {
 	return !strncmp (b, "202 ", 4);
 }
 
+static void respawn_obs (void) { reap (&OBS, 1); spawn (&OBS); }
+
 /* value of the semaphore `name` (which exists), observed through the API only; -1 on failure */
 static int drain_value (const char *name, const char *key) {
 	char l[LINE];
@@ -549,24 +554,24 @@ static int drain_value (const char *name, const char *key) {
 	int n = 0, idle = 0;
 	for (;;) {
 		int k = recv_line (&OBS, l, sizeof l, 1);
-		if (k == -1) return -1;
+		if (k == -1) { respawn_obs (); return -1; }
 		if (k == -2) {
 			if (blocked_in_futex (OBS.pid)) break;
-			if (++idle > 20000) return -1;
+			if (++idle > 3000) { respawn_obs (); return -1; }
 			continue;
 		}
-		if (l[0] == 'U') { ++n; idle = 0; }
+		if (l[0] == 'U') { ++n; idle = 0; if (n > 100000) { respawn_obs (); return -1; } }
 		else if (l[0] == 'R') return -1;
 	}
 	/* the observer sleeps inside p_semaphore_acquire: tell it to stop, then wake it with one unit */
 	wr_all (OBS.cmd, "x", 1);
 	PSemaphore *s = p_semaphore_new (name, 0, P_SEM_ACCESS_OPEN, NULL);
-	if (!s) return -1;
+	if (!s) { respawn_obs (); return -1; }
 	p_semaphore_release (s, NULL);
 	p_semaphore_free (s);
 	for (;;) {
-		int k = recv_line (&OBS, l, sizeof l, OP_TIMEOUT);
-		if (k < 0) return -1;
+		int k = recv_line (&OBS, l, sizeof l, 2000);
+		if (k < 0) { respawn_obs (); return -1; }     /* the unit did not reach the observer: not one counter */
 		if (l[0] == 'U') ++n;      /* cannot happen: the stop byte is already there */
 		if (l[0] == 'R') break;
 	}
